@@ -690,9 +690,11 @@ class ManifestRecursiveLoader:
                 fail_handler, last_mtime)
 
         with MultiprocessingPoolWrapper(self.max_jobs) as pool:
-            # verify the directories in parallel
-            ret = all(pool.imap_unordered(
-                verifier, _walk_directory(it), chunksize=64))
+            # verify the directories in parallel; consume the whole
+            # iterator first, since all() would stop scanning
+            # at the first directory for which the handler returned False
+            ret = all(list(pool.imap_unordered(
+                verifier, _walk_directory(it), chunksize=64)))
 
             # check for missing directories
             for relpath, dirdict in entry_dict.items():
